@@ -12,7 +12,8 @@ use std::panic::{self, AssertUnwindSafe};
 use std::rc::Rc;
 
 fn cstatus(s: ChronyClockStatus) -> i64 {
-    match s { ChronyClockStatus::Unknown => 0, ChronyClockStatus::Synchronized => 1, ChronyClockStatus::FreeRunning => 2 }
+    #[allow(unreachable_patterns)]
+    match s { ChronyClockStatus::Unknown => 0, ChronyClockStatus::Synchronized => 1, ChronyClockStatus::FreeRunning => 2, _ => 99 }
 }
 
 fn trk_of(f: &[i64]) -> (Trk, i64) {
